@@ -148,6 +148,20 @@ pub fn open_link(from: String, to: String, is_primary: bool, receiver: futures::
     closed.remove(&id);
 }
 
+lazy_static::lazy_static! {
+    static ref LINKS_SPAWNED: std::sync::atomic::AtomicU64 = std::sync::atomic::AtomicU64::new(0);
+}
+
+/// A link thread is about to be spawned (called by the supervisor, synchronously), so that a
+/// harness can wait for exactly as many `open_link` registrations.
+pub fn link_spawned() {
+    LINKS_SPAWNED.fetch_add(1, std::sync::atomic::Ordering::SeqCst);
+}
+
+pub fn links_spawned() -> u64 {
+    LINKS_SPAWNED.load(std::sync::atomic::Ordering::SeqCst)
+}
+
 pub fn take_links() -> Vec<LinkEnd> {
     std::mem::take(&mut *LINKS.lock().unwrap())
 }
